@@ -73,6 +73,22 @@ def compare(t, h, res):
         if sa != sb:
             ks = [k for k in sa if sa.get(k) != sb.get(k)] + [k for k in sb if k not in sa]
             return ("C06.structure", "view-structure-differs", "nested %r, at %r: handle %r view %r" % (path, ks[0], sa.get(ks[0]), sb.get(ks[0])))
+        # the typed window (to_nplike) of an array of numbers: same content through handle and view, and both are windows
+        # onto the buffer's CURRENT storage (a write through either is seen through the other)
+        if ct[0] == "A" and ct[1][0] == "S":
+            try:
+                wa, wb = ch.to_nplike(), cv.to_nplike()
+            except Exception:
+                wa = wb = None  # (layouts for which the library offers no window)
+            if wa is not None:
+                res.oracles["window"] += 1
+                if wa.shape != wb.shape or wa.tobytes() != wb.tobytes():
+                    return ("C06.value", "typed-window-differs", "nested %r: to_nplike() of the handle and of the view differ" % (path,))
+                st = ch._buffer.buffer
+                base = np.frombuffer(st, dtype="int8").__array_interface__["data"][0] if not isinstance(st, np.ndarray) else st.__array_interface__["data"][0]
+                for who, w in (("handle", wa), ("view", wb)):
+                    if w.size and not (base <= w.__array_interface__["data"][0] < base + int(ch._buffer.capacity)):
+                        return ("C06.value", "typed-window-not-on-current-storage", "nested %r: the window of the %s does not lie in the buffer's storage (a write through it is not seen)" % (path, who))
         # cached private structure the constructor keeps must equal what the view re-reads
         for attr in ("_shape", "_strides", "_size"):
             if hasattr(ch, attr) != hasattr(cv, attr):
